@@ -765,7 +765,7 @@ def _gen_calls(rng, tier):
             # ---- at
             for uname in list(BOPS) + list(UOPS):
                 for ik in ['distinct', 'repeated', 'negative', 'oob', 'empty']:
-                    for vk in ['scal', 'arr', 'elem']:
+                    for vk in ['scal', 'arr', 'elem', 'arr-target']:
                         uf = getattr(np, uname)
                         if uf.nin == 1 and vk != 'scal':
                             continue
@@ -783,7 +783,14 @@ def _gen_calls(rng, tier):
                                 ins.append(('scal', float(rng.randint(-3, 3))))
                             else:
                                 vshape = (len(idx),) + tuple(shape[1:])
-                                if vk == 'arr' or kind == 'disc' or len(idx) == 0:
+                                if vk == 'arr-target':
+                                    # a plain ndarray is the TARGET, the ODL element is the VALUES operand:
+                                    # dispatch still goes to the element's __array_ufunc__
+                                    if len(idx) == 0:
+                                        continue
+                                    bufs[:] = []
+                                    ins = [mk_elem(rng, 'arr', shape, bufs), mk_elem(rng, kind, vshape, bufs, 'float64')]
+                                elif vk == 'arr' or kind == 'disc' or len(idx) == 0:
                                     ins.append(mk_elem(rng, 'arr', vshape, bufs))
                                 else:
                                     ins.append(mk_elem(rng, 'tens', vshape, bufs))
@@ -1604,7 +1611,22 @@ def probes(rng, tier):
         out.append(mk_probe(spec))
     out.extend(structural_probes(rng, tier))
     out.extend(legacy2_probes(rng, tier))
+    out.extend(out_contract_probes(rng, tier))
+    out.extend(position_probes(rng, tier))
     return out
+
+
+def search(rng, broken):
+    """when a proof / translator / correspondence obligation broke and no probe of this run has a failing
+    input: run the enumerated families (out= contract incl. all out-slot patterns of the two-output ufuncs,
+    operand positions, binary legacy operands, memory layouts) with fresh data and return the first failing
+    probe that is not a recorded finding"""
+    known = C.load_findings(PID)
+    for fam in (out_contract_probes, position_probes, legacy2_probes, structural_probes):
+        for p in fam(rng, 'thorough'):
+            if not p.ok and p.key not in known:
+                return p
+    return None
 
 
 def _flat_space_equal(a, b):
@@ -1855,6 +1877,304 @@ def legacy2_probes(rng, tier):
                                                % (name, ', out=...' if with_out else '', name, dims, n, dtype, x2[0] if
                                                   x2[0] != 'space' else 'element of the space %d level(s) above the leaf'
                                                   % x2[1][0]), rp, {'category': cat, 'observed': obs, 'expected': exp}))
+    return out
+
+
+# ---- the out= contract: rejected with an error, or the passed object is returned and holds the values
+OUT_KINDS = ['same', 'equal', 'f32', 'weighted', 'arr', 'arr32', 'view', 'elemview', 'tensor', 'tuple']
+TWO_OUT_UFUNCS = ('modf', 'frexp', 'divmod')
+
+
+def _contract_space(sd, dtype=None, weighting=None):
+    import odl
+    dtype = dtype or sd['dtype']
+    kw = {} if weighting is None else {'weighting': weighting}
+    if sd['kind'] == 'tens':
+        return odl.tensor_space(tuple(sd['shape']), dtype=dtype, **kw)
+    if sd['kind'] == 'disc':
+        shape = tuple(sd['shape'])
+        return odl.uniform_discr([0.0] * len(shape), [float(k) for k in shape], shape, dtype=dtype, **kw)
+    sp = odl.tensor_space(sd['shape'][-1], dtype=dtype, **kw)
+    for k in reversed(sd['shape'][:-1]):
+        sp = sp ** k
+    return sp
+
+
+def _mk_out(sd, kind, shape, rdt):
+    """an out container of the requested kind for a result of the given shape / dtype (None: not applicable)"""
+    shape = tuple(shape)
+    sd2 = dict(sd, shape=list(shape))
+    if kind in ('same', 'equal', 'tuple'):
+        return _contract_space(sd2, rdt).element(np.full(shape, 7, dtype=rdt))
+    if kind == 'f32':
+        if np.dtype(rdt) != np.float64:
+            return None
+        return _contract_space(sd2, 'float32').element(np.full(shape, 7, dtype='float32'))
+    if kind == 'weighted':
+        if np.dtype(rdt).kind != 'f':
+            return None
+        return _contract_space(sd2, rdt, weighting=2.0).element(np.full(shape, 7, dtype=rdt))
+    if kind == 'arr':
+        return np.full(shape, 7, dtype=rdt)
+    if kind == 'arr32':
+        return np.full(shape, 7, dtype='float32') if np.dtype(rdt) == np.float64 else None
+    if kind == 'view':
+        return make_layout(np.full(shape, 7, dtype=rdt), 'S')
+    if kind == 'elemview':
+        if sd['kind'] == 'pow':
+            return None
+        return _contract_space(sd2, rdt).element(make_layout(np.full(shape, 7, dtype=rdt), 'S'))
+    if kind == 'tensor':
+        if sd['kind'] != 'disc':
+            return None
+        return _contract_space(sd2, rdt).tspace.element(np.full(shape, 7, dtype=rdt))
+    raise ValueError(kind)
+
+
+def out_contract_eval(spec):
+    """spec: space descr, iface 'numpy'|'legacy', op (name, method, axis), outs: list of out kinds or None per slot"""
+    sd = spec['space']
+    space = _contract_space(sd)
+    shape = tuple(sd['shape'])
+    x = space.element(np.array(spec['x'], dtype=sd['dtype']).reshape(shape))
+    A = np.asarray(x).copy()
+    name, method, axis = spec['op']
+    uf = getattr(np, {'sum': 'add', 'prod': 'multiply', 'min': 'minimum', 'max': 'maximum'}.get(name, name))
+    second = spec.get('second')
+    raw_ins = [A] + ([] if second is None else [A.copy() if second == 'self' else second])
+    ins = [x] + ([] if second is None else [x if second == 'self' else second])
+    kw = {} if axis is None else {'axis': axis}
+    f = uf if method == '__call__' else getattr(uf, method)
+    with np.errstate(all='ignore'):
+        plain = f(*raw_ins, **kw)
+    plains = list(plain) if isinstance(plain, tuple) else [plain]
+    if any(np.ndim(p) == 0 for p in plains):
+        return True, 'scalar', None, None
+    outs = []
+    for kind, p in zip(spec['outs'], plains):
+        o = None if kind is None else _mk_out(sd, kind, np.shape(p), np.asarray(p).dtype)
+        if kind is not None and o is None:
+            return True, 'n/a', None, None
+        outs.append(o)
+    # reference: NumPy on raw arrays with raw out arrays of the same dtype
+    raw_outs = [None if o is None else np.full(np.shape(np.asarray(o)), 7, dtype=np.asarray(o).dtype) for o in outs]
+    try:
+        with np.errstate(all='ignore'):
+            ref = f(*raw_ins, out=tuple(raw_outs) if len(raw_outs) > 1 else raw_outs[0], **kw) \
+                if any(o is not None for o in raw_outs) else plain
+        refs = list(ref) if isinstance(ref, tuple) else [ref]
+        referr = None
+    except Exception as e:      # noqa
+        refs, referr = None, e
+    tuple_form = 'tuple' in spec['outs']
+    try:
+        with np.errstate(all='ignore'):
+            if spec['iface'] == 'numpy':
+                okw = {}
+                if any(o is not None for o in outs):
+                    okw['out'] = tuple(outs) if (len(outs) > 1 or tuple_form) else outs[0]
+                r = f(*ins, **kw, **okw)
+            else:
+                m = getattr(x.ufuncs, name)
+                okw = dict(kw)
+                if len(outs) == 2 and sd['kind'] == 'pow':
+                    if outs[0] is not None:
+                        okw['out1'] = outs[0]
+                    if outs[1] is not None:
+                        okw['out2'] = outs[1]
+                elif any(o is not None for o in outs):
+                    okw['out'] = tuple(outs) if (len(outs) > 1 or tuple_form) else outs[0]
+                r = m(*ins[1:], **okw)
+    except Exception as e:      # noqa
+        return None, 'rejected', '%s: %s' % (type(e).__name__, str(e)[:100]), None
+    if refs is None:
+        return False, 'accepts', 'returned', 'NumPy raises ' + type(referr).__name__
+    rs = list(r) if isinstance(r, tuple) else [r]
+    if len(rs) != len(refs):
+        return False, 'arity', len(rs), len(refs)
+    for k, (rk, ok_, refk) in enumerate(zip(rs, outs, refs)):
+        if rk is None or rk is NotImplemented:
+            return False, 'slot%d-none' % k, repr(rk), 'a result'
+        if ok_ is not None:
+            if rk is not ok_:
+                return False, 'slot%d-identity' % k, type(rk).__name__, 'the passed out object'
+            if not _same(np.asarray(ok_), refk):
+                return False, 'slot%d-not-written' % k, np.asarray(ok_).tolist(), np.asarray(refk).tolist()
+        else:
+            if not np.array_equal(np.asarray(rk), np.asarray(refk)):
+                return False, 'slot%d-values' % k, np.asarray(rk).tolist(), np.asarray(refk).tolist()
+    if not _same(np.asarray(x), A):
+        return False, 'input-changed', np.asarray(x).tolist(), A.tolist()
+    return True, '', None, None
+
+
+def out_contract_specs(rng, tier):
+    spaces = [{'kind': 'tens', 'shape': [3], 'dtype': 'float64'}, {'kind': 'tens', 'shape': [2, 3], 'dtype': 'float64'},
+              {'kind': 'disc', 'shape': [3], 'dtype': 'float64'}, {'kind': 'disc', 'shape': [2, 2], 'dtype': 'float64'},
+              {'kind': 'pow', 'shape': [2, 3], 'dtype': 'float64'}, {'kind': 'pow', 'shape': [2, 2, 2], 'dtype': 'float64'}]
+    for sd in spaces:
+        n = int(np.prod(sd['shape']))
+        for iface in ('numpy', 'legacy'):
+            ops = [(('negative', '__call__', None), None), (('square', '__call__', None), None),
+                   (('add', '__call__', None), 'self'), (('multiply', '__call__', None), 2.0)]
+            if sd['kind'] != 'pow' and len(sd['shape']) > 1:
+                if iface == 'numpy':
+                    ops += [(('add', 'reduce', 0), None), (('maximum', 'reduce', 1), None),
+                            (('add', 'accumulate', 0), None)]
+                else:
+                    ops += [(('sum', 'reduce', 0), None), (('max', 'reduce', 1), None)]
+            elif iface == 'numpy' and sd['kind'] != 'pow':
+                ops += [(('add', 'accumulate', 0), None)]
+            for (op, second) in ops:
+                for kind in OUT_KINDS:
+                    yield {'space': sd, 'iface': iface, 'op': list(op), 'second': second, 'outs': [kind],
+                           'x': [rng.choice([0.5, 1.0, 1.5, 2.0, -2.5, 3.0]) for _ in range(n)]}
+            for name in TWO_OUT_UFUNCS:
+                second = 2.0 if name == 'divmod' else None
+                if iface == 'legacy' and name not in ('modf',):
+                    continue       # only modf is in the legacy namespace
+                pats = [[a, b] for a in (None, 'same', 'arr') for b in (None, 'same', 'arr')]
+                pats += [['f32', None], [None, 'view'], ['equal', 'equal'], ['tensor', None], [None, 'tensor']]
+                for pat in pats:
+                    yield {'space': sd, 'iface': iface, 'op': [name, '__call__', None], 'second': second, 'outs': pat,
+                           'x': [rng.choice([0.5, 1.25, 1.5, 2.0, 2.5, 3.0]) for _ in range(n)]}
+
+
+# combinations the current interfaces refuse (measured; a refusal anywhere else is a failure)
+def _may_reject(spec):
+    sd, iface, outs = spec['space'], spec['iface'], spec['outs']
+    given = [k for k in outs if k is not None]
+    if sd['kind'] == 'pow' and iface == 'numpy' and any(k in ('same', 'equal', 'f32', 'weighted', 'tuple') for k in given):
+        return True        # finding pspace-out-element-unsupported
+    return False
+
+
+def out_contract_probes(rng, tier):
+    out = []
+    for spec in out_contract_specs(rng, tier):
+        try:
+            ok, cat, obs, exp = out_contract_eval(spec)
+        except Exception as e:      # noqa
+            ok, cat, obs, exp = False, 'probe-crash', repr(e), None
+        if ok is None:
+            ok = _may_reject(spec)
+            cat = 'rejected'
+        rp = ("import sys\nsys.path.insert(0, %r)\nfrom harness.c17 import out_contract_eval\nspec = %r\n"
+              "ok, category, observed, expected = out_contract_eval(spec)\nok = bool(ok)\n" % (C.VERIF, spec))
+        key = 'out-contract-%s-%s-%s-%s-%s' % (spec['iface'], spec['space']['kind'], spec['op'][0],
+                                               '+'.join(str(k) for k in spec['outs']), cat)
+        if spec['iface'] == 'legacy' and spec['outs'] == ['tuple']:
+            if spec['space']['kind'] == 'pow' and cat == 'slot0-not-written':
+                key = 'legacy-pspace-out-tuple-misread'
+            elif spec['space']['kind'] != 'pow' and cat == 'slot0-none' and (
+                    spec['second'] is not None or spec['op'][0] in ('sum', 'prod', 'min', 'max')):
+                key = 'legacy-binary-out-tuple-returns-notimplemented'
+        if spec['iface'] == 'legacy' and spec['space']['kind'] == 'pow' and len(spec['space']['shape']) > 2 \
+                and spec['op'][0] in TWO_OUT_UFUNCS and cat == 'rejected':
+            key = 'legacy-pspace-two-output-nested'
+        out.append(C.Probe(bool(ok), key if not ok else 'ok',
+                           'out= contract (%s interface, %s space %s): %s%s with out kinds %s -- rejected or the passed '
+                           'object is returned and holds NumPy\'s values'
+                           % (spec['iface'], spec['space']['kind'], spec['space']['shape'], spec['op'][0],
+                              '' if spec['op'][1] == '__call__' else '.' + spec['op'][1], spec['outs']),
+                           rp, {'category': cat, 'observed': obs, 'expected': exp}))
+    return out
+
+
+# ---- position of the ODL operand: target / value operand / both, for at, outer and __call__
+def position_eval(spec):
+    sd = spec['space']
+    space = _contract_space(sd)
+    shape = tuple(sd['shape'])
+    uf = getattr(np, spec['ufunc'])
+    method = spec['method']
+    a0 = np.array(spec['a'], dtype=sd['dtype']).reshape(shape)
+    if method == 'at':
+        vshape = (len(spec['idx']),) + shape[1:]
+    else:
+        vshape = shape
+    b0 = np.array(spec['b'], dtype=sd['dtype']).reshape(vshape)
+
+    def run(raw):
+        a, b = a0.copy(), b0.copy()
+        if raw:
+            A, B = a, b
+        else:
+            vspace = space if vshape == shape else _contract_space(dict(sd, shape=list(vshape), kind='tens' if sd['kind'] != 'pow' else 'pow'))
+            A = space.element(a) if spec['pos'] in ('target', 'both') else a
+            B = vspace.element(b) if spec['pos'] in ('value', 'both') else b
+        with np.errstate(all='ignore'):
+            if method == 'at':
+                r = uf.at(A, list(spec['idx']), B)
+            elif method == 'outer':
+                r = uf.outer(A, B)
+            else:
+                r = uf(A, B)
+        return r, np.asarray(A), np.asarray(B), a, b
+    er, eA, eB, ea, eb = run(True)
+    try:
+        orr, oA, oB, oa, ob = run(False)
+    except Exception as e:      # noqa
+        return None, 'rejected', '%s: %s' % (type(e).__name__, str(e)[:100]), None
+    if er is None:
+        if orr is not None:
+            return False, 'return', type(orr).__name__, 'None'
+    else:
+        if not _same(np.asarray(orr), er):
+            return False, 'values', np.asarray(orr).tolist(), np.asarray(er).tolist()
+    # the operands afterwards: both the ODL view and the raw arrays underneath
+    if not _same(oA, eA) or (spec['pos'] == 'value' and not _same(oa, ea)):
+        return False, 'target-contents', oA.tolist(), eA.tolist()
+    if not _same(oB, eB) or (spec['pos'] == 'target' and not _same(ob, eb)):
+        return False, 'value-operand-changed', oB.tolist(), eB.tolist()
+    return True, '', None, None
+
+
+def position_specs(rng, tier):
+    spaces = [{'kind': 'tens', 'shape': [4], 'dtype': 'float64'}, {'kind': 'tens', 'shape': [3, 2], 'dtype': 'float64'},
+              {'kind': 'disc', 'shape': [4], 'dtype': 'float64'}, {'kind': 'disc', 'shape': [2, 2], 'dtype': 'float64'},
+              {'kind': 'pow', 'shape': [3, 2], 'dtype': 'float64'}, {'kind': 'tens', 'shape': [3], 'dtype': 'int64'}]
+    for sd in spaces:
+        n = int(np.prod(sd['shape']))
+        for method, names in (('at', ('add', 'multiply', 'maximum', 'subtract')), ('outer', ('add', 'multiply')),
+                              ('__call__', ('add', 'subtract', 'maximum'))):
+            for name in names:
+                for pos in ('target', 'value', 'both'):
+                    idx = [rng.randrange(sd['shape'][0]) for _ in range(rng.randint(1, 3))] if method == 'at' else []
+                    nb = (len(idx) * int(np.prod(sd['shape'][1:]))) if method == 'at' else n
+                    yield {'space': sd, 'ufunc': name, 'method': method, 'pos': pos, 'idx': idx,
+                           'a': [rng.randint(-3, 3) for _ in range(n)], 'b': [rng.randint(1, 3) for _ in range(nb)]}
+
+
+def _position_may_reject(spec):
+    k, m = spec['space']['kind'], spec['method']
+    if k == 'pow' and m == 'at' and spec['pos'] in ('target', 'both'):
+        return True        # finding pspace-at-not-wrapped
+    if k == 'disc' and m == 'outer' and spec['pos'] != 'both':
+        return True        # documented: discretized outer needs two elements
+    return False
+
+
+def position_probes(rng, tier):
+    out = []
+    for spec in position_specs(rng, tier):
+        try:
+            ok, cat, obs, exp = position_eval(spec)
+        except Exception as e:      # noqa
+            ok, cat, obs, exp = False, 'probe-crash', repr(e), None
+        if ok is None:
+            ok, cat = _position_may_reject(spec), 'rejected'
+        rp = ("import sys\nsys.path.insert(0, %r)\nfrom harness.c17 import position_eval\nspec = %r\n"
+              "ok, category, observed, expected = position_eval(spec)\nok = bool(ok)\n" % (C.VERIF, spec))
+        key = 'operand-position-%s-%s-%s-%s-%s' % (spec['space']['kind'], spec['ufunc'], spec['method'], spec['pos'], cat)
+        if spec['space']['kind'] == 'pow' and spec['method'] == 'outer' and cat == 'values':
+            key = key      # values are compared as arrays: outer on power spaces returns a plain ndarray (known, harmless here)
+        out.append(C.Probe(bool(ok), key if not ok else 'ok',
+                           'np.%s%s with the ODL element (%s space %s) as %s operand: same return value and same '
+                           'final contents of BOTH operands as NumPy on the arrays'
+                           % (spec['ufunc'], '' if spec['method'] == '__call__' else '.' + spec['method'],
+                              spec['space']['kind'], spec['space']['shape'], spec['pos']),
+                           rp, {'category': cat, 'observed': obs, 'expected': exp}))
     return out
 
 
